@@ -56,7 +56,21 @@ def install():
     _install_clock_and_id_shims()
     _install_thread_emulation()
     _installed = True
+    _use_base_classes_first(plumpy)
     return plumpy
+
+
+def _use_base_classes_first(plumpy):
+    """Somebody has used the library's own classes before any generated subclass exists (a placeholder, a test double): every
+    class builds its own table of states whatever its ancestors did before.  Done once per interpreter - also in the one
+    that replays - so that what a case sees does not depend on which cases ran before it."""
+    loop = new_loop(max_ticks=100)
+    try:
+        for cls in (plumpy.Process,):
+            placeholder = cls(loop=loop)
+            placeholder.close()
+    finally:
+        reset_world()
 
 
 def _install_thread_emulation():
